@@ -68,6 +68,11 @@ func (enc *StreamEncoder) Encode(val interface{}) (err error) {
 		}
 
 	} else {
+		// according to standard library, terminate each value with a newline...
+		if enc.Opts&NoEncoderNewline == 0 {
+			*out = append(*out, '\n')
+		}
+
 		/* copy into io.Writer */
 		var n int
 		buf := *out
@@ -77,11 +82,6 @@ func (enc *StreamEncoder) Encode(val interface{}) (err error) {
 			if err != nil {
 				goto free_bytes
 			}
-		}
-
-		// according to standard library, terminate each value with a newline...
-		if enc.Opts&NoEncoderNewline == 0 {
-			enc.w.Write([]byte{'\n'})
 		}
 	}
 
